@@ -247,3 +247,16 @@ def replay_table_alias(sp):
         if any(not np.array_equal(a, b) for a, b in zip(r1, keep)):
             bad.append("%s: arrays returned by lbasis(X1, .) changed after lbasis(X2, .)" % name)
     return dict(confirmed=bool(bad), observed=bad, input="hold the result of lbasis at one point set, evaluate at another set of equal size")
+
+
+def replay_basis_dofs(sp):
+    """the numbering a basis uses against Dofs(mesh, elem) built directly for the same mesh and element"""
+    import skfem as fem
+    from skfem.assembly.dofs import Dofs
+    m = getattr(fem, sp["mesh"])().refined(1)
+    e = fem.ElementDG(fem.ElementTriP1()) if sp["element"] == "ElementDG" else getattr(fem, sp["element"])()
+    b = fem.CellBasis(m, e)
+    d = Dofs(m, e)
+    bad = b.N != d.N or b.dofs.element_dofs.shape != d.element_dofs.shape or not np.array_equal(b.dofs.element_dofs, d.element_dofs)
+    return dict(confirmed=bool(bad), input="CellBasis(%s().refined(1), %s())" % (sp["mesh"], sp["element"]),
+                observed="basis.N = %d, Dofs(mesh, elem).N = %d" % (b.N, d.N), required="the basis numbers its DOFs with Dofs(mesh, elem) of its own element")
